@@ -95,6 +95,12 @@ def make_spec(c):
 
 def multi_spec(c):
     n = c["n"]
+    if c.get("shared_body"):
+        # sections of equal shape that hold ONE RTFBody object; the body removes a page_by column
+        keys = c.get("keys") or [0] * n
+        sec = {"n": n, "cols": ["s", "i"], "header": "explicit", "page_by": [keys]}
+        return {"kind": "multi", "multi_header": "nested", "title": 0, "page": {"nrow": c["nrow"]}, "share_body": True,
+                "sections": [dict(sec) for _ in range(c["shared_body"])]}
     return {"kind": "multi", "multi_header": "nested", "title": 0, "page": {"nrow": c["nrow"]},
             "sections": [{"n": n, "cols": ["s", "i"], "header": "explicit"},
                          {"n": max(n - 1, 0) if n else 0, "cols": ["s", "f", "s"], "header": c.get("header", "explicit"), "section_new_page": c.get("sec_new_page", False)}][: 2 if n else 2]}
@@ -152,7 +158,7 @@ def eval_case(case: dict) -> dict:
         viol.append({"klass": None, "sig": "unparseable", "detail": f"{d.errors[:2]}; case={c}"})
     ctx = f"case={ {k: v for k, v in c.items() if v not in (None, False)} }"
     if multi:
-        tags = ("A", "B")
+        tags = ("A", "B", "C")[: len(b.sections)]
         got, _ = reconstruct(d, tags)
         for t, sec in zip(tags, b.sections):
             check_section(sec, got[t], viol, f"section {t}", ctx)
@@ -192,6 +198,9 @@ def plan(run):
         for nrow in nrows_q:
             cases.append({"n": n, "nrow": nrow, "strat": "plain"})
             cases.append({"n": n, "nrow": nrow, "strat": "multi2"})
+            if 1 <= n <= 4:
+                for k in (2, 3):
+                    cases.append({"n": n, "nrow": nrow, "strat": "multi2", "shared_body": k, "keys": [r * 2 // n for r in range(n)]})
             for strat in grouped:
                 vecs = run_vectors(n) if n else [[]]
                 if quick and n > 5:
@@ -221,7 +230,7 @@ def plan(run):
             dev.append(dict(a, footnote=fn, source=src))
         for pt, pf, ps in itertools.product(("first", "last", "all"), repeat=3):
             dev.append(dict(a, footnote="table", source="para", title=1, page_title=pt, page_footnote=pf, page_source=ps))
-        for cols in (["p", "i"], ["s", "f", "m"], ["m", "z", "s"], ["s", "i", "f", "p", "m"], ["s"], ["s", "ni", "nf"], ["s", "nf", "z", "ni"]):
+        for cols in (["p", "i"], ["s", "f", "m"], ["m", "z", "s"], ["s", "i", "f", "p", "m"], ["s"], ["s", "ni", "nf"], ["s", "nf", "z", "ni"], ["s", "b", "fe"], ["fe", "s", "b", "i"]):
             dev.append(dict(a, cols=cols))
         dev.append(dict(a, convert_off=True))
         dev.append(dict(a, convert_off=True, cols=["x", "i", "x"]))
